@@ -454,10 +454,40 @@ class UFArr:
 class KeyLog:
     """Vec<ZKey> used as the record of earlier positions: an unknown older part, abstracted to its membership
     predicate `base` (SMT array key -> Bool), followed by the explicitly pushed keys `ents` (64-bit terms)."""
-    __slots__ = ('base', 'ents')
+    __slots__ = ('base', 'ents', 'n0')
+    ctr = [0]
 
-    def __init__(self, base, ents=()):
+    def __init__(self, base, ents=(), n0=None):
         self.base, self.ents = base, tuple(ents)
+        if n0 is None:
+            KeyLog.ctr[0] += 1
+            n0 = z3.BitVec('poslog_older_len_%d' % KeyLog.ctr[0], 64)
+        self.n0 = n0         # length of the unknown older part (arbitrary, far from wrapping)
+
+    def len_model(self, ctx):
+        ctx.ex.assume(z3.ULT(self.n0, 1 << 32))
+        return self.n0 + len(self.ents)
+
+    def remove_model(self, ctx, p, idx):
+        """Vec::remove(i): supported for i == 0 when the older part is provably non-empty on this path: the oldest key
+        leaves the log; whether it is still a member afterwards (duplicates) is unknown"""
+        from .models import some
+        i0 = idx.v == 0 if isinstance(idx, CI) else False
+        if not i0:
+            raise Unsupported('position log: remove at a non-zero / symbolic index')
+        s = z3.Solver()
+        s.set('timeout', 2000)
+        for c in ctx.ex.pre:
+            s.add(c)
+        s.add(zb(ctx.st.guard), self.n0 == 0)
+        if s.check() != z3.unsat:
+            raise Unsupported('position log: remove(0) when the older part may be empty')
+        KeyLog.ctr[0] += 1
+        k0 = z3.BitVec('poslog_evicted_key_%d' % KeyLog.ctr[0], 64)
+        still = z3.Bool('poslog_evicted_still_member_%d' % KeyLog.ctr[0])
+        ctx.ex.assume(z3.Implies(zb(ctx.st.guard), z3.Select(self.base, k0)))
+        ctx.write(p, KeyLog(z3.Store(self.base, k0, still), self.ents, self.n0 - 1))
+        return (k0,)
 
     def contains(self, kb):
         return b_or(lift(z3.simplify(z3.Select(self.base, kb))) if False else z3.Select(self.base, kb), *[e == kb for e in self.ents])
@@ -466,16 +496,17 @@ class KeyLog:
         if len(self.ents) != len(other.ents):
             raise Unsupported('merging position logs of different length')
         base = self.base if self.base.eq(other.base) else z3.If(g, self.base, other.base)
-        return KeyLog(base, tuple(a if a.eq(b) else z3.If(g, a, b) for a, b in zip(self.ents, other.ents)))
+        n0 = self.n0 if self.n0.eq(other.n0) else z3.If(g, self.n0, other.n0)
+        return KeyLog(base, tuple(a if a.eq(b) else z3.If(g, a, b) for a, b in zip(self.ents, other.ents)), n0)
 
     def push_model(self, ctx, p, v):
-        ctx.write(p, KeyLog(self.base, self.ents + (bv(v[0]),)))
+        ctx.write(p, KeyLog(self.base, self.ents + (bv(v[0]),), self.n0))
 
     def pop_model(self, ctx, p):
         from .models import some
         if not self.ents:
             raise Unsupported('pop from the unknown older part of the position log')
-        ctx.write(p, KeyLog(self.base, self.ents[:-1]))
+        ctx.write(p, KeyLog(self.base, self.ents[:-1], self.n0))
         return some((self.ents[-1],))
 
     def __repr__(self):
